@@ -20,6 +20,7 @@
      AbortContainerOnItemError  an item of a container the loop cannot process (a result nobody waits for,
                            an unreadable object) ends the processing of the container: later items are lost
      NoAckForUnknownResult a result nobody waits for is not acknowledged
+     DieOnEof              the receive loop ends when the server closes the connection
      HintKeyedByServerId   the element-type hint of a vector result is looked up under the server's msg_id
      NoHintInsideGzip      the hint does not reach a result that travels gzip-packed
    With Dev = {} the properties below hold (checked by TLC); each deviation alone breaks one.
@@ -30,6 +31,7 @@ EXTENDS Integers, Sequences, FiniteSets, TLC
 
 CONSTANTS Callers, MaxTick, MaxRot, MaxAtt, FreshKey, Dev,
           MaxJunk,  \* how many items nobody waits for the server may put into its answers
+          MaxClose, \* how many times the server may close the connection (orderly, at a moment when no request is being sent)
           Kinds     \* result kinds callers may ask for: "obj" (self-describing) and/or "vec" (a bare vector: the decoder
                     \* needs the element type the request registered - the hint)
 
@@ -43,10 +45,11 @@ VARIABLES clock, lastId,
           nCont,                  \* content-related server messages the loop has finished with
           kind,                   \* per caller: result kind of its request
           hint,                   \* request ids for which an element-type hint is registered
+          epoch, cconn,           \* the server's current connection number; the connection the client is on
           hist
-vars == <<clock, lastId, pc, mid, att, got, lock, seqNo, tab, c2s, srvNext, srvSalt, srvAcc, srvDone, s2c, loop, salt, store, junk, nCont, kind, hint, hist>>
-view == <<clock, lastId, pc, mid, att, got, lock, seqNo, tab, c2s, srvNext, srvSalt, srvAcc, srvDone, s2c, loop, salt, store, junk, nCont, kind, hint>>
-aux == <<junk, nCont, kind, hint>>
+vars == <<clock, lastId, pc, mid, att, got, lock, seqNo, tab, c2s, srvNext, srvSalt, srvAcc, srvDone, s2c, loop, salt, store, junk, nCont, kind, hint, epoch, cconn, hist>>
+view == <<clock, lastId, pc, mid, att, got, lock, seqNo, tab, c2s, srvNext, srvSalt, srvAcc, srvDone, s2c, loop, salt, store, junk, nCont, kind, hint, epoch, cconn>>
+aux == <<junk, nCont, kind, hint, epoch, cconn>>
 
 None == [t |-> "none"]
 GzChoices == IF "vec" \in Kinds THEN BOOLEAN ELSE {FALSE}     \* gzip only matters for the decoder's hints
@@ -66,6 +69,7 @@ Init ==
   /\ s2c = <<>> /\ loop = [pc |-> "read"] /\ salt = 0 /\ store = 0
   /\ junk = 0 /\ nCont = 0
   /\ kind \in [Callers -> Kinds] /\ hint = {}
+  /\ epoch = 1 /\ cconn = 1
   /\ hist = <<>>
 
 Tick == clock < MaxTick /\ clock' = clock + 1
@@ -74,13 +78,13 @@ Tick == clock < MaxTick /\ clock' = clock + 1
 (* ---------------- callers: the send path ---------------- *)
 FreshId == IF clock > lastId THEN clock ELSE lastId + 1          \* strictly above everything issued
 Begin(c) ==   \* take the send lock first (as specified)
-  /\ ~Outside /\ pc[c] = "idle" /\ att[c] <= MaxAtt /\ lock = "none"
+  /\ ~Outside /\ pc[c] = "idle" /\ att[c] <= MaxAtt /\ lock = "none" /\ cconn = epoch
   /\ lock' = c /\ pc' = [pc EXCEPT ![c] = "genid"]
   /\ hist' = Append(hist, [a |-> "Call", c |-> c, k |-> kind[c]])
   /\ UNCHANGED aux /\ UNCHANGED <<clock, lastId, mid, att, got, seqNo, tab, c2s, srvNext, srvSalt, srvAcc, srvDone, s2c, loop, salt, store>>
 GenId(c) ==
   /\ \/ ~Outside /\ pc[c] = "genid"
-     \/ Outside /\ pc[c] = "idle" /\ att[c] <= MaxAtt
+     \/ Outside /\ pc[c] = "idle" /\ att[c] <= MaxAtt /\ cconn = epoch
   /\ LET id == IF Outside THEN clock ELSE FreshId IN       \* as coded: the bare clock value
      /\ mid' = [mid EXCEPT ![c] = id]
      /\ lastId' = IF id > lastId THEN id ELSE lastId
@@ -90,7 +94,7 @@ GenId(c) ==
 Register(c) ==
   /\ pc[c] = "reg"
   /\ tab' = (mid[c] :> Chan(c)) @@ tab
-  /\ hint' = (IF kind[c] = "vec" THEN hint \cup {mid[c]} ELSE hint) /\ UNCHANGED <<junk, nCont, kind>>
+  /\ hint' = (IF kind[c] = "vec" THEN hint \cup {mid[c]} ELSE hint) /\ UNCHANGED <<junk, nCont, kind, epoch, cconn>>
   /\ pc' = [pc EXCEPT ![c] = IF Outside THEN "acquire" ELSE "write"]
   /\ UNCHANGED <<clock, lastId, mid, att, got, lock, seqNo, c2s, srvNext, srvSalt, srvAcc, srvDone, s2c, loop, salt, store, hist>>
 Acquire(c) ==
@@ -113,7 +117,7 @@ Wake(c) ==    \* the caller took a value from its channel (placed there by the l
 
 (* ---------------- conformant server ---------------- *)
 SrvRecv ==
-  /\ srvNext <= Len(c2s)
+  /\ srvNext <= Len(c2s) /\ cconn = epoch
   /\ LET m == c2s[srvNext] IN
      IF m.kind = "ack" THEN UNCHANGED <<s2c, srvAcc>>
      ELSE IF m.salt = srvSalt
@@ -125,9 +129,9 @@ SrvRecv ==
 \* nobody waits for (id 0: a repeated or unsolicited result, an object the client cannot read)
 \* gz: the results travel gzip-packed
 SrvAnswer(S, j, gz) ==
-  /\ (S # {} \/ j) /\ S \subseteq srvAcc
+  /\ (S # {} \/ j) /\ S \subseteq srvAcc /\ cconn = epoch
   /\ j => junk < MaxJunk
-  /\ junk' = (IF j THEN junk + 1 ELSE junk) /\ UNCHANGED <<nCont, kind, hint>>
+  /\ junk' = (IF j THEN junk + 1 ELSE junk) /\ UNCHANGED <<nCont, kind, hint, epoch, cconn>>
   /\ s2c' = Append(s2c, [t |-> "results", ids |-> S \cup (IF j THEN {0} ELSE {}), content |-> TRUE, gz |-> gz,
                         vec |-> {id \in S : \E k \in 1..Len(c2s) : c2s[k].id = id /\ c2s[k].rk = "vec"}])
   /\ srvAcc' = srvAcc \ S /\ srvDone' = srvDone \cup S
@@ -138,12 +142,40 @@ SrvRotate ==
   /\ hist' = Append(hist, [a |-> "Rotate"])
   /\ UNCHANGED aux /\ UNCHANGED <<clock, lastId, pc, mid, att, got, lock, seqNo, tab, c2s, srvNext, srvAcc, srvDone, s2c, loop, salt, store>>
 
+\* the server closes the connection in an orderly way (after the last complete message), at a moment when no request
+\* is on its way or waiting for its answer: nobody is inside the send section, everything written has been received,
+\* everything accepted has been answered.  (A server learns which session a new connection belongs to from the first
+\* message on it: a request left unanswered at the close would wait until the client speaks again - that is the
+\* keep-alive's business, which this specification does not cover.)
+Sending(c) == pc[c] \in {"genid", "reg", "acquire", "write"}
+SrvClose ==
+  /\ epoch - 1 < MaxClose /\ cconn = epoch /\ srvNext > Len(c2s) /\ srvAcc = {} /\ \A c \in Callers : ~Sending(c)
+  /\ lock = "none" /\ loop.pc \in {"read", "items", "notify"}
+  /\ epoch' = epoch + 1
+  /\ s2c' = Append(s2c, [t |-> "eof"])
+  /\ hist' = Append(hist, [a |-> "Close"])
+  /\ UNCHANGED <<junk, nCont, kind, hint, cconn>>
+  /\ UNCHANGED <<clock, lastId, pc, mid, att, got, lock, seqNo, tab, c2s, srvNext, srvSalt, srvAcc, srvDone, loop, salt, store>>
+
 (* ---------------- receive loop ---------------- *)
 Keys == DOMAIN tab
 SeqOfSet(S) == CHOOSE s \in [1..Cardinality(S) -> S] : \A a, b \in DOMAIN s : a # b => s[a] # s[b]
 Orders(S) == {s \in [1..Cardinality(S) -> S] : \A a, b \in DOMAIN s : a # b => s[a] # s[b]}
+\* end of stream: as specified the loop connects again with the key it holds (no key exchange) and reads on;
+\* DieOnEof: the loop ends (a panic, or a return without reconnecting)
+LoopEof ==
+  /\ loop.pc = "read" /\ s2c # <<>> /\ Head(s2c).t = "eof"
+  /\ s2c' = Tail(s2c)
+  /\ loop' = IF "DieOnEof" \in Dev THEN [pc |-> "dead"] ELSE [pc |-> "reconnect"]
+  /\ UNCHANGED aux
+  /\ UNCHANGED <<clock, lastId, pc, mid, att, got, lock, seqNo, tab, c2s, srvNext, srvSalt, srvAcc, srvDone, salt, store, hist>>
+LoopReconnect ==
+  /\ loop.pc = "reconnect"
+  /\ cconn' = epoch /\ loop' = [pc |-> "read"]
+  /\ UNCHANGED <<junk, nCont, kind, hint, epoch>>
+  /\ UNCHANGED <<clock, lastId, pc, mid, att, got, lock, seqNo, tab, c2s, srvNext, srvSalt, srvAcc, srvDone, s2c, salt, store, hist>>
 LoopRead ==
-  /\ loop.pc = "read" /\ s2c # <<>>
+  /\ loop.pc = "read" /\ s2c # <<>> /\ Head(s2c).t # "eof"
   /\ LET m == Head(s2c) IN
      /\ s2c' = Tail(s2c)
      /\ IF m.t = "results"
@@ -186,7 +218,7 @@ LoopDeliver ==
                 \* as coded: a result nobody waits for is an error before the acknowledgement is sent
                 ELSE IF "NoAckForUnknownResult" \in Dev THEN [loop EXCEPT !.todo = Tail(@), !.ack = FALSE]
                 ELSE [loop EXCEPT !.todo = Tail(@)]
-  /\ UNCHANGED <<junk, nCont, kind>>
+  /\ UNCHANGED <<junk, nCont, kind, epoch, cconn>>
   /\ UNCHANGED <<clock, lastId, mid, att, lock, seqNo, c2s, srvNext, srvSalt, srvAcc, srvDone, s2c, salt, store, hist>>
 LoopNotify ==
   /\ loop.pc = "notify" /\ loop.todo # <<>>
@@ -197,7 +229,7 @@ LoopNotify ==
      /\ tab' = IF "StaleEntryAfterNotify" \in Dev THEN tab ELSE [j \in Keys \ {k} |-> tab[j]]
      /\ hint' = IF "StaleEntryAfterNotify" \in Dev THEN hint ELSE hint \ {k}
   /\ loop' = [loop EXCEPT !.todo = Tail(@)]
-  /\ UNCHANGED <<junk, nCont, kind>> /\ UNCHANGED <<clock, lastId, mid, att, lock, seqNo, c2s, srvNext, srvSalt, srvAcc, srvDone, s2c, salt, store, hist>>
+  /\ UNCHANGED <<junk, nCont, kind, epoch, cconn>> /\ UNCHANGED <<clock, lastId, mid, att, lock, seqNo, c2s, srvNext, srvSalt, srvAcc, srvDone, s2c, salt, store, hist>>
 \* end of a message: acknowledge it if it was content-related (through the send path), else read on
 LoopEnd ==
   /\ loop.pc \in {"items", "notify"} /\ loop.todo = <<>>
@@ -207,15 +239,15 @@ LoopEnd ==
             /\ lastId' = FreshId /\ seqNo' = seqNo + 2
        ELSE UNCHANGED <<c2s, lastId, seqNo>>
   /\ loop' = [pc |-> "read"]
-  /\ nCont' = (IF loop.content THEN nCont + 1 ELSE nCont) /\ UNCHANGED <<junk, kind, hint>>
+  /\ nCont' = (IF loop.content THEN nCont + 1 ELSE nCont) /\ UNCHANGED <<junk, kind, hint, epoch, cconn>>
   /\ UNCHANGED <<clock, pc, mid, att, got, lock, tab, srvNext, srvSalt, srvAcc, srvDone, s2c, salt, store, hist>>
 
 Finished == (\A c \in Callers : pc[c] = "done" \/ att[c] > MaxAtt) /\ UNCHANGED vars
 Next ==
-  \/ Finished \/ Tick \/ SrvRecv \/ SrvRotate \/ LoopRead \/ LoopDeliver \/ LoopNotify \/ LoopEnd
+  \/ Finished \/ Tick \/ SrvRecv \/ SrvRotate \/ SrvClose \/ LoopEof \/ LoopReconnect \/ LoopRead \/ LoopDeliver \/ LoopNotify \/ LoopEnd
   \/ \E c \in Callers : Begin(c) \/ GenId(c) \/ Register(c) \/ Acquire(c) \/ Write(c) \/ Wake(c)
   \/ \E S \in SUBSET srvAcc, j \in BOOLEAN, gz \in GzChoices : SrvAnswer(S, j, gz)
-Fair == /\ WF_vars(SrvRecv) /\ WF_vars(LoopRead) /\ WF_vars(LoopDeliver) /\ WF_vars(LoopNotify) /\ WF_vars(LoopEnd)
+Fair == /\ WF_vars(SrvRecv) /\ WF_vars(LoopRead) /\ WF_vars(LoopEof) /\ WF_vars(LoopReconnect) /\ WF_vars(LoopDeliver) /\ WF_vars(LoopNotify) /\ WF_vars(LoopEnd)
         /\ \A c \in Callers : WF_vars(Begin(c) \/ GenId(c) \/ Register(c) \/ Acquire(c) \/ Write(c) \/ Wake(c))
         /\ WF_vars(\E S \in SUBSET srvAcc : S # {} /\ SrvAnswer(S, FALSE, FALSE))
 Spec == Init /\ [][Next]_vars /\ Fair
